@@ -209,7 +209,7 @@ def insertSchema (hir : HirSpec) (r : Record) : X HirSpec :=
   match r.name with
   | [] => .error .emptyName
   | c :: _ =>
-    if c.isUpper then .ok { hir with schemas := btInsert r.name r hir.schemas }
+    if !c.isLower then .ok { hir with schemas := btInsert r.name r hir.schemas }
     else .error .schemaNameNotUpper
 
 /-- `get_required()` of the parent: `some` for object / any schemas -/
